@@ -172,17 +172,43 @@ func propGeom(c Case) error {
 		case "ends":
 			// the write makes this value ill formed, so it is undone after the
 			// other values have been looked at
+			// (upwards, or downwards as far as it goes: a last end offset written down
+			// leaves ordinates behind it)
+			d := 1 + m.I
 			if e := t.Ends(); len(e) > 0 {
 				k := m.I % len(e)
-				e[k] += 1 + m.I
-				undo = func() { e[k] -= 1 + m.I }
+				if m.I%2 == 1 {
+					k = len(e) - 1
+					d = -min(e[k], 1+m.I%5)
+				}
+				e[k] += d
+				undo = func() { e[k] -= d }
 			} else if es := t.Endss(); len(es) > 0 && len(es[m.I%len(es)]) > 0 {
 				row := es[m.I%len(es)]
 				k := m.I % len(row)
-				row[k] += 1 + m.I
-				undo = func() { row[k] -= 1 + m.I }
+				if m.I%2 == 1 {
+					row = es[len(es)-1]
+					if len(row) == 0 {
+						row = es[m.I%len(es)]
+					}
+					k = len(row) - 1
+					d = -min(row[k], 1+m.I%5)
+				}
+				row[k] += d
+				undo = func() { row[k] -= d }
 			} else {
 				applied = "none"
+			}
+			// "cloning any geometry": a clone taken while the written offset stands equals
+			// its source in every stored bit and offset, and is its own value
+			if undo != nil {
+				cl := clone(t)
+				if a, b := snap(t).String(), snap(cl).String(); a != b {
+					return fmt.Errorf("step %d: clone of a value whose end offset was written (by %d) differs from its source:\n clone %s\n src   %s", step, d, b, a)
+				}
+				if f := cl.FlatCoords(); len(f) > 0 {
+					f[len(f)-1] = math.Float64frombits(math.Float64bits(f[len(f)-1]) ^ 1)
+				}
 			}
 		case "push":
 			p, err := model.Build(m.G, model.RouteFlat)
